@@ -20,7 +20,8 @@ pub fn bases(f: Family, fr: &FamRefs, n: usize) -> Vec<Vec<u8>> {
 }
 
 pub fn refs_domain(f: Family, fr: &FamRefs, n: usize) -> Vec<Vec<u8>> {
-	let mut segs: Vec<Vec<u8>> = ["", ".", "..", "g"].iter().map(|s| domains::b(s)).collect();
+	// "%2E%2E": an ordinary segment that only DECODES to ".."
+	let mut segs: Vec<Vec<u8>> = ["", ".", "..", "g", "%2E%2E"].iter().map(|s| domains::b(s)).collect();
 	if f == Family::Iri {
 		segs.push(domains::b("é"));
 	}
@@ -45,7 +46,7 @@ pub fn run(ctx: &Ctx) -> Report {
 		panic!("resolution model self-check failed: {e}");
 	}
 	let mut total = Report::new();
-	total.rule = "all pairs (base, reference): bases = s x {no authority, empty authority, h} x PATH(n) over {'' . .. a b:c} x {no query, q}; references = {no scheme, t} x {no authority, '', g} x PATH(m) over {'' . .. g (é)} x {no query, '', y} x {no fragment, s} (every RFC 5.2.2 branch), plus long paths and a sub-domain with '/' and '?' inside queries and fragments on both sides; each through resolved / resolve / into_resolved and compared with a transcription of RFC 3986 5.2.2-5.2.4 + Errata 4547 + 5.3 (itself checked against the 42 examples of RFC 5.4); non-trivial = distinct pair".into();
+	total.rule = "all pairs (base, reference): bases = s x {no authority, empty authority, h} x PATH(n) over {'' . .. a b:c} x {no query, q}; references = {no scheme, t} x {no authority, '', g} x PATH(m) over {'' . .. g %2E%2E (é)} x {no query, '', y} x {no fragment, s} (every RFC 5.2.2 branch), plus long paths and a sub-domain with '/', '?' and ':' inside queries and fragments on both sides; each through resolved / resolve / into_resolved and compared with a transcription of RFC 3986 5.2.2-5.2.4 + Errata 4547 + 5.3 (itself checked against the 42 examples of RFC 5.4); non-trivial = distinct pair".into();
 	let (bn, rn) = ctx.pick((2usize, 3usize), (3usize, 4usize));
 	for f in Family::active() {
 		let fr = FamRefs::new(refs, f);
@@ -76,12 +77,12 @@ pub fn run(ctx: &Ctx) -> Report {
 		let o = |x: &[Option<&str>]| -> Vec<Option<Vec<u8>>> { x.iter().map(|s| s.map(domains::b)).collect() };
 		let pv = |x: &[&str]| -> Vec<Vec<u8>> { x.iter().map(|s| domains::b(s)).collect() };
 		bs.extend(
-			domains::references(&o(&[Some("s")]), &o(&[None, Some("h")]), &pv(&["", "/a/b", "a/b", "/"]), &o(&[None, Some("q/../x"), Some("q?x")]), &o(&[None, Some("bf?x/..")]))
+			domains::references(&o(&[Some("s")]), &o(&[None, Some("h")]), &pv(&["", "/a/b", "a/b", "/"]), &o(&[None, Some("q/../x"), Some("q?x"), Some("t=1:30")]), &o(&[None, Some("bf?x/.."), Some("b:f")]))
 				.into_iter()
 				.map(|(t, _)| t),
 		);
 		rs.extend(
-			domains::references(&o(&[None]), &o(&[None]), &pv(&["", "g", "../g", "/g", "."]), &o(&[None, Some("y/../z?")]), &o(&[None, Some("s?x"), Some("s/../x")]))
+			domains::references(&o(&[None]), &o(&[None]), &pv(&["", "g", "../g", "/g", "."]), &o(&[None, Some("y/../z?"), Some("y:z"), Some("t=12:30")]), &o(&[None, Some("s?x"), Some("s/../x"), Some("t=1:30"), Some("a:b")]))
 				.into_iter()
 				.map(|(t, _)| t),
 		);
